@@ -34,7 +34,7 @@ def strings(ctx):
         n = r.randint(5, 24)
         out.append(bytes(r.choice(ALPHA + [0x80, 0xff, 9, 10, 13, 1]) for _ in range(n)))
     # long digit runs (strtol clamp)
-    for n in (30, 100, 1000, 60000):
+    for n in (30, 100, 1000, 3000):
         out.append(b'1' * n + b'.1'); out.append(b'1.' + b'1' * n); out.append(b'0' * n + b'1.' + b'0' * n + b'2')
     seen, uniq = set(), []
     for s in out:
